@@ -138,3 +138,13 @@ Definition case_styles (x : xml) (wftab : list (qname * text * bool)) (valtab : 
   kv_eqb (smap_ids valtab (doc_initial po (wf_of wftab) x)) initial.
 Definition spec_styles (x : xml) (wftab : list (qname * text * bool)) (valtab : list (qname * text * Z)) : list (list (Z * Z)) :=
   List.map (smap_ids valtab) (doc_specified (style_prop_of imsc_style_attrs) (wf_of wftab) x).
+
+(* ---- colour values: M = code on strings; S (Spec/TtmlColorSpec.v) on the code's answer for the yield of a derivation tree ------------------ *)
+From TT Require Spec.TtmlColorSpec.
+Definition case_color (s : text) (expected : option color) : bool := ocolor_eqb (parse_color s) expected.
+(* [s] is the string the code was given: it must be the yield of the tree; a tree of the grammar must be read as the colour it denotes *)
+Definition case_color_tree (t : TtmlColorSpec.color_ast) (s : text) (got : option color) : bool :=
+  text_eqb (TtmlColorSpec.yield t) s && TtmlColorSpec.judge_tree t got.
+Definition color_tree_wf (t : TtmlColorSpec.color_ast) : bool := TtmlColorSpec.wf_color t.
+Definition CN := TtmlColorSpec.ANamed.  Definition CH6 := TtmlColorSpec.AHex6.  Definition CH8 := TtmlColorSpec.AHex8.
+Definition CRgb := TtmlColorSpec.ARgb.  Definition CRgba := TtmlColorSpec.ARgba.  Definition Cp := TtmlColorSpec.mkComp.
